@@ -179,6 +179,12 @@ def checker (model : Bool) : Checker where
     let ws := words op
     let got := normTok (resultTok obs)
     match ws with
+    | ["new", "L", "recursive"] =>
+      -- a recursively DEFINED struct type (type N struct{V int; Next *N}) is outside the model's finite
+      -- type trees; the property only demands that building the copier does not panic/crash: since the
+      -- fix badc2e4 the constructor reports an error for it
+      if got.startsWith "err" then (none, none)
+      else (none, some s!"constructor on a recursive struct type must return an error, got {resultTok obs}")
     | "new" :: kind :: rest =>
       let optWords := if kind == "L" then rest.drop 1 else rest.drop 2
       if obs == "blackbox" then (none, if model then some "black-box run" else none) else
